@@ -273,9 +273,9 @@ func closure(p *syntax.Prog, pcs []uint32, prev int, nextEnd bool, nextWord bool
 // excluded runes and returns the shortest string whose membership vector
 // satisfies accept, if any.
 type Query struct {
-	Langs    []*Lang
-	Excluded func(r rune) bool // runes outside the domain (default: '\n')
-	Accept   func(member []bool) bool
+	Langs     []*Lang
+	Excluded  func(r rune) bool // runes outside the domain (default: '\n')
+	Accept    func(member []bool) bool
 	MaxStates int
 }
 
